@@ -34,7 +34,9 @@ CLAIM = {
           "with the state it keeps between calls and between sequences, accepts exactly the chains encode_fits accepts and writes the same bytes) -- for every writer kind, write-buffer size and caller-preset data size, batch or stream "
           "encoder, the destination holds the bytes of encode_fits and decoding the destination content yields the messages (normal headers). "
           "Not yet a theorem and decided per run: component expansion on (decoded messages then also carry the expanded fields, C05), strings and arrays of unknown fields beyond numeric ones: model-encode = Go bytes, model-decode(Go bytes) = Go decode, and Go decode(Go encode x) = validated x "
-          "on structured inputs over all encoder options and chained files.",
+          "on structured inputs over all encoder options and chained files. Encoder life-cycles outside the model (contexts, caller-supplied validators) are decided by Go oracles on "
+          "every run: an encoder used again after a call that failed during the data-size dry run writes what a fresh encoder writes (found the defect repaired by fix 1279167); "
+          "a stream encoder asked to complete a sequence no message was written for refuses and leaves the destination alone (fix 2690f88).",
   "note": NOTE_COMMON + " gen/Factory.v and gen/Consts.v are dumped from the compiled packages. Primitive float/int63 operations appear under Print Assumptions "
           "(component scaling in the decoder model); custom factories are outside the model."}
 
